@@ -4,7 +4,9 @@ C17 — CSV reading and writing are faithful.
 Proved about the column-reading logic on the records the csv reader yields (the csv module itself and `float()`/`repr()` are modelled /
 trusted, see the trusted base): row order, blank lines skipped, element type, *exactly* the cells equal to the missing value (after
 conversion to the element type) missing, independence from the other columns, the reported line of a non-numeric cell.
-Bit-identity of the write/read round trip rests on CPython's shortest-repr guarantee and is established by testing on the implementation only.
+`csv_row_roundtrip`, `csv_table_roundtrip`: the model of the csv reader inverts the model of the csv writer for every table of text fields
+(commas, quotes, line breaks, empty fields: the quoting rules are consistent), so header names needing CSV quoting survive a write/read.
+Bit-identity of the numeric cells rests on CPython's shortest-repr guarantee and is established by testing on the implementation only.
 -/
 import MPilot.Model.Csv
 import Mathlib.Tactic.Common
@@ -132,5 +134,215 @@ example : truncRat (29/10) = 2 ∧ truncRat (-29/10) = -2 ∧ truncRat 3 = 3 ∧
 
 /-- the csv reader model on a small table with a quoted header, a blank line and a last line without terminator -/
 example : csvRows "a,\"x,\"\"y\"\n1,2\n\n3,4".toList = [["a", "x,\"y"], ["1", "2"], [], ["3", "4"]] := by decide +kernel
+
+/-! ### the csv reader inverts the csv writer (header names and any other text fields, quoting included) -/
+
+def runCsv (a : CsvAcc) (cs : List Char) : CsvAcc := cs.foldl csvStep a
+
+theorem runCsv_append (a : CsvAcc) (x y : List Char) : runCsv a (x ++ y) = runCsv (runCsv a x) y := by
+  simp [runCsv, List.foldl_append]
+
+/-- the characters the writer puts between the quotes of a quoted field -/
+def quotedBody (cs : List Char) : List Char := cs.flatMap fun c => if c == '"' then ['"', '"'] else [c]
+
+theorem run_quotedBody (cs : List Char) : ∀ (a : CsvAcc), a.st = .inQuoted →
+    runCsv a (quotedBody cs) = { a with field := cs.reverse ++ a.field } := by
+  induction cs with
+  | nil => intro a _; rfl
+  | cons c t ih =>
+    intro a ha
+    by_cases hc : c = '"'
+    · subst hc
+      have : quotedBody ('"' :: t) = '"' :: '"' :: quotedBody t := by simp [quotedBody]
+      rw [this]
+      show runCsv (csvStep (csvStep a '"') '"') (quotedBody t) = _
+      have h1 : csvStep a '"' = { a with st := .quoteInQuoted } := by simp [csvStep, ha]
+      have h2 : csvStep { a with st := .quoteInQuoted } '"' = { a with st := .inQuoted, field := '"' :: a.field } := by simp [csvStep]
+      rw [h1, h2, ih _ rfl]
+      cases a; simp at ha; subst ha; simp
+    · have hq : (c == '"') = false := by simpa using hc
+      have : quotedBody (c :: t) = c :: quotedBody t := by simp [quotedBody, hc]
+      rw [this]
+      show runCsv (csvStep a c) (quotedBody t) = _
+      have h1 : csvStep a c = { a with field := c :: a.field } := by simp [csvStep, ha, hq]
+      rw [h1, ih _ (by simpa using ha)]
+      simp
+
+/-- an unquoted field holds no comma, quote or line break -/
+def Bare (cs : List Char) : Prop := ∀ c ∈ cs, c ≠ ',' ∧ c ≠ '"' ∧ c ≠ '\n' ∧ c ≠ '\r'
+
+theorem run_bare_inField (cs : List Char) (hb : Bare cs) : ∀ (a : CsvAcc), a.st = .inField →
+    runCsv a cs = { a with field := cs.reverse ++ a.field } := by
+  induction cs with
+  | nil => intro a _; rfl
+  | cons c t ih =>
+    intro a ha
+    have hc := hb c (List.mem_cons_self ..)
+    have e1 : (c == '\n') = false := by simpa using hc.2.2.1
+    have e2 : (c == ',') = false := by simpa using hc.1
+    show runCsv (csvStep a c) t = _
+    have h1 : csvStep a c = { a with field := c :: a.field } := by simp [csvStep, ha, e1, e2]
+    rw [h1, ih (fun d hd => hb d (List.mem_cons_of_mem _ hd)) _ (by simpa using ha)]
+    simp
+
+/-- the state at the start of a field: no character of it read yet -/
+def AtStart (a : CsvAcc) : Prop := (a.st = .startRecord ∨ a.st = .startField) ∧ a.field = []
+
+/-- reading the characters of one written field: afterwards the field text is in the buffer (state `inField` or `quoteInQuoted`, in both of
+which a comma saves the field and a line break ends the record) - or nothing was read at all (an empty bare field) -/
+inductive AfterField (a : CsvAcc) (s : String) : CsvAcc → Prop
+  | buffered (b : CsvAcc) : (b.st = .inField ∨ b.st = .quoteInQuoted) → b.field = s.toList.reverse → b.fields = a.fields → b.rows = a.rows →
+      AfterField a s b
+  | untouched : s = "" → AfterField a s a
+
+theorem needsQuote_false_bare (s : String) (h : needsQuote s = false) : Bare s.toList := by
+  intro c hc
+  unfold needsQuote at h
+  rw [List.any_eq_false] at h
+  have := h c hc
+  simp only [Bool.or_eq_true, beq_iff_eq, not_or] at this
+  exact ⟨this.1.1.1, this.1.1.2, this.1.2, this.2⟩
+
+theorem csvField_chars (s : String) :
+    (csvField s).toList = if needsQuote s then '"' :: (quotedBody s.toList ++ ['"']) else s.toList := by
+  unfold csvField
+  split <;> simp [quotedBody, String.toList_append]
+
+theorem run_field (a : CsvAcc) (ha : AtStart a) (s : String) : AfterField a s (runCsv a (csvField s).toList) := by
+  obtain ⟨hst, hf⟩ := ha
+  rw [csvField_chars]
+  by_cases hq : needsQuote s = true
+  · rw [if_pos hq]
+    have h1 : csvStep a '"' = { a with st := .inQuoted } := by
+      rcases hst with h | h <;> simp [csvStep, h]
+    show AfterField a s (runCsv (csvStep a '"') (quotedBody s.toList ++ ['"']))
+    rw [h1, runCsv_append, run_quotedBody _ _ rfl]
+    refine .buffered _ (Or.inr ?_) ?_ rfl rfl
+    · simp [runCsv, csvStep]
+    · simp [runCsv, csvStep, hf]
+  · have hq' : needsQuote s = false := by simpa using hq
+    rw [if_neg hq]
+    have hb := needsQuote_false_bare s hq'
+    cases hs : s.toList with
+    | nil =>
+      have : s = "" := by
+        have := congrArg String.ofList hs
+        simpa using this
+      exact .untouched this
+    | cons c t =>
+      rw [hs] at hb
+      have hc := hb c (List.mem_cons_self ..)
+      have e1 : (c == '\n') = false := by simpa using hc.2.2.1
+      have e2 : (c == ',') = false := by simpa using hc.1
+      have e3 : (c == '"') = false := by simpa using hc.2.1
+      have h1 : csvStep a c = { a with st := .inField, field := [c] } := by
+        rcases hst with h | h <;> simp [csvStep, h, e1, e2, e3, hf]
+      show AfterField a s (runCsv (csvStep a c) t)
+      rw [h1, run_bare_inField t (fun d hd => hb d (List.mem_cons_of_mem _ hd)) _ rfl]
+      refine .buffered _ (Or.inl rfl) ?_ rfl rfl
+      simp [hs]
+
+theorem sep_comma {a b : CsvAcc} {s : String} (ha : AtStart a) (h : AfterField a s b) :
+    csvStep b ',' = { st := .startField, field := [], fields := s :: a.fields, rows := a.rows } := by
+  cases h with
+  | buffered b hst hf hfs hr =>
+    rcases hst with h | h <;> simp [csvStep, h, CsvAcc.saveField, hf, hfs, hr]
+  | untouched hs =>
+    subst hs
+    obtain ⟨hst, hf⟩ := ha
+    rcases hst with h | h <;> simp [csvStep, h, CsvAcc.saveField, hf]
+
+theorem sep_newline {a b : CsvAcc} {s : String} (ha : AtStart a) (h : AfterField a s b) (hne : a.st = .startField ∨ s ≠ "") :
+    csvStep b '\n' = { st := .startRecord, field := [], fields := [], rows := (s :: a.fields).reverse :: a.rows } := by
+  cases h with
+  | buffered b hst hf hfs hr =>
+    rcases hst with h | h <;> simp [csvStep, h, CsvAcc.saveField, CsvAcc.endRecord, hf, hfs, hr]
+  | untouched hs =>
+    subst hs
+    obtain ⟨hst, hf⟩ := ha
+    rcases hne with h | h
+    · simp [csvStep, h, CsvAcc.saveField, CsvAcc.endRecord, hf]
+    · exact absurd rfl h
+
+/-- the characters of a written row (fields already quoted where needed) -/
+def rowChars : List String → List Char
+  | [] => ['\n']
+  | [x] => (csvField x).toList ++ ['\n']
+  | x :: y :: t => (csvField x).toList ++ ',' :: rowChars (y :: t)
+
+theorem run_row : ∀ (fs : List String) (a : CsvAcc), fs ≠ [] → AtStart a → (a.st = .startField ∨ fs ≠ [""]) →
+    runCsv a (rowChars fs) = { st := .startRecord, field := [], fields := [], rows := (a.fields.reverse ++ fs) :: a.rows }
+  | [], _, h, _, _ => absurd rfl h
+  | [x], a, _, ha, hne => by
+      rw [rowChars, runCsv_append]
+      have hf := run_field a ha x
+      show csvStep (runCsv a (csvField x).toList) '\n' = _
+      rw [sep_newline ha hf (by rcases hne with h | h; exact Or.inl h; exact Or.inr (by intro e; apply h; rw [e]))]
+      simp
+  | x :: y :: t, a, _, ha, _ => by
+      rw [rowChars, runCsv_append]
+      have hf := run_field a ha x
+      show runCsv (csvStep (runCsv a (csvField x).toList) ',') (rowChars (y :: t)) = _
+      rw [sep_comma ha hf, run_row (y :: t) _ (by simp) ⟨Or.inr rfl, rfl⟩ (Or.inl rfl)]
+      simp
+
+theorem inter_chars : ∀ (fs : List String), ((",".intercalate (fs.map csvField)) ++ "\n").toList = rowChars fs
+  | [] => rfl
+  | [x] => by simp [rowChars, String.toList_append]
+  | x :: y :: t => by
+      have ih := inter_chars (y :: t)
+      rw [List.map_cons, List.map_cons, String.intercalate_cons_cons, rowChars]
+      rw [List.map_cons] at ih
+      simp only [String.toList_append, List.append_assoc] at ih ⊢
+      rw [ih]
+      rfl
+
+theorem writeRow_chars (fs : List String) (h : fs ≠ [""]) : (csvWriteRow fs).toList = rowChars fs := by
+  unfold csvWriteRow
+  split
+  · exact absurd rfl h
+  · exact inter_chars fs
+
+/-- **the csv reader inverts the csv writer** (one row): whatever the fields contain - commas, quotes, line breaks, nothing at all - the
+row the writer produces is read back as exactly those fields -/
+theorem csv_row_roundtrip (fs : List String) : csvRows (csvWriteRow fs).toList = [fs] := by
+  unfold csvRows
+  by_cases h1 : fs = [""]
+  · subst h1; rfl
+  · rw [writeRow_chars fs h1]
+    by_cases h0 : fs = []
+    · subst h0; rfl
+    · have := run_row fs ⟨.startRecord, [], [], []⟩ h0 ⟨Or.inl rfl, rfl⟩ (Or.inr h1)
+      simp only [runCsv] at this
+      rw [this]
+      simp
+
+theorem run_written_row (fs : List String) (R : List (List String)) :
+    runCsv ⟨.startRecord, [], [], R⟩ (csvWriteRow fs).toList = ⟨.startRecord, [], [], fs :: R⟩ := by
+  by_cases h1 : fs = [""]
+  · subst h1; rfl
+  · rw [writeRow_chars fs h1]
+    by_cases h0 : fs = []
+    · subst h0; rfl
+    · have := run_row fs ⟨.startRecord, [], [], R⟩ h0 ⟨Or.inl rfl, rfl⟩ (Or.inr h1)
+      rw [this]; simp
+
+/-- **the csv reader inverts the csv writer** (whole tables): header row and data rows alike, any number of rows and columns -/
+theorem csv_table_roundtrip (rows : List (List String)) : csvRows (rows.flatMap fun r => (csvWriteRow r).toList) = rows := by
+  unfold csvRows
+  have key : ∀ (rs : List (List String)) (R : List (List String)),
+      List.foldl csvStep ⟨.startRecord, [], [], R⟩ (rs.flatMap fun r => (csvWriteRow r).toList) = ⟨.startRecord, [], [], rs.reverse ++ R⟩ := by
+    intro rs
+    induction rs with
+    | nil => intro R; rfl
+    | cons r rs ih =>
+      intro R
+      rw [List.flatMap_cons, List.foldl_append]
+      have := run_written_row r R
+      simp only [runCsv] at this
+      rw [this, ih]
+      simp
+  rw [key rows []]
+  simp
 
 end MPilot.C17
